@@ -220,7 +220,13 @@ def run_case(case):
             if timeout >= FOREVER:
                 mon.append(dict(prop='C07', rule='unanswered', detail=f'request {r} with an unbounded deadline got TimeoutError'))
         elif out[0] == 'full':
-            pass   # allowed: immediate rejection (backpressure) or after waiting no longer than the timeout
+            # allowed: immediate rejection (backpressure), or after waiting no longer than a finite timeout.
+            # A request WITHOUT backpressure and with an unbounded deadline must get in eventually:
+            # every freed slot is announced, and under the scheduler's condition variable a
+            # notification is never lost to a simultaneous time-out.
+            if bp is False and timeout >= FOREVER:
+                for pr in ('C06', 'C07'):
+                    mon.append(dict(prop=pr, rule='starved', detail=f'request {r} (no backpressure, unbounded deadline) was rejected after waiting for room although slots were freed'))
         else:
             mon.append(dict(prop='C02', rule='foreign-exception', detail=f'request {r} got {out}'))
         if out[0] == 'full' and bp and el > 0:
